@@ -326,7 +326,8 @@ BUILDER = {
         "invariants": ["Inv_C05_Wrap", "Inv_C05_Sibling", "Inv_C05_Frame"],
         "rel": "c05",
         "exh": {"quick": [("C04_Docs3", 2, 2, "C04_Range3")],
-                "thorough": [("C04_Docs3", 2, 3, "C04_Range3")]},      # (with ("C04_Docs", 2, 2): > 50 min, every behaviour drives ~20 related histories)
+                "thorough": [("C04_Docs3", 2, 2, "C04_Range3"), ("C04_DocsP", 3, 3, "C04_RangeP"), ("C04_DocsK", 2, 2, "C04_RangeK")]},
+                # (3 stages of C04_Docs3 or 2 of C04_Docs: > 50 min of TLC - the relational invariants fold ~20 related histories per state)
         "mutations": [{"switch": "AbsLookup", "docs": "C04_Docs3", "range": "C04_Range3", "stages": (2, 2), "expect": ["Inv_C05_Wrap"]},
                       {"mutation": "PruneAlways", "docs": "C04_Docs3", "range": "C04_Range3", "stages": (2, 2), "expect": ["Inv_C05_Frame"]}],
         "gen": _gen_c04, "random": {"quick": 700, "thorough": 3000}, "max_stages": 4,
@@ -544,8 +545,11 @@ EVAL = {
     },
     "C10": {
         "invariants": ["Inv_C10", "StepBound"],
-        "exh": {"quick": [("EU_C10_DocsS", 1, 1), ("EU_C10_DocsE", 1, 1), ("EU_C10_DocsN", 1, 1), ("EU_C10_DocsF", 1, 1), ("EU_C10_Hist", 2, 2, "EU_C10_HistRange")],
-                "thorough": [("EU_C10_Docs", 1, 1), ("EU_C10_DocsE", 1, 1), ("EU_C10_DocsN", 1, 1), ("EU_C10_DocsF", 1, 1), ("EU_C10_Hist", 2, 2, "EU_C10_HistRange")]},
+        "rec_files": {"rc1.yaml": S.mapping([("x", S.SD("call", None, [], fn="vmod.rec", form="tag")), ("y", S.leaf(1))]),
+                      "rc2.yaml": S.mapping([("x", S.SD("call", None, [[S.skey("a"), S.leaf(1)]], fn="vmod.rec", form="tag")),
+                                             ("z", S.SD("call", None, [], fn="vmod.reclist", form="tag"))])},
+        "exh": {"quick": [("EU_C10_DocsS", 1, 1), ("EU_C10_DocsE", 1, 1), ("EU_C10_DocsN", 1, 1), ("EU_C10_DocsF", 1, 1), ("EU_C10_DocsR", 1, 1), ("EU_C10_Hist", 2, 2, "EU_C10_HistRange")],
+                "thorough": [("EU_C10_Docs", 1, 1), ("EU_C10_DocsE", 1, 1), ("EU_C10_DocsN", 1, 1), ("EU_C10_DocsF", 1, 1), ("EU_C10_DocsR", 1, 1), ("EU_C10_Hist", 2, 2, "EU_C10_HistRange")]},
         "mutations": [{"mutation": "NoIdCache", "docs": "EU_C10_DocsS", "stages": (1, 1), "expect": ["Inv_C10"]},
                       {"mutation": "EvalLeaksPlaceholder", "docs": "EU_C10_DocsE", "stages": (1, 1), "expect": ["Inv_C10"]}],
         "gen": _gen_eval, "random": {"quick": 1500, "thorough": 25000}, "max_stages": 2,
